@@ -115,7 +115,8 @@ def gen(rng, tier):
             "preempt_at": L.gen_preempt_at(rng, ["remote_exec", "executetask", "_local_schedulexec", "close", "_channel_exec"],
                                            maxn=40, p=0.3),
             "faults": [], "transport": transport, "backend": backend, "gwi": gwi, "items": items,
-            "scratch": "vsim-c06-%08x" % rng.randrange(1 << 32), "errtext_limit": 6000}
+            "scratch": "vsim-c06-%08x" % rng.randrange(1 << 32), "errtext_limit": 6000,
+            "gw_strcfg": rng.choice([None] * 7 + [[True, True], [False, True], [False, False]])}
 
 
 def shrink_cases(case):
@@ -225,6 +226,9 @@ def invalid_callable(d, name, shape):
 def c06_script(ctx, aid, oi, table, op):
     case = ctx.case
     gw = ctx.gws[case["gwi"]]
+    if case.get("gw_strcfg"):
+        # string coercion for user data: what remote_exec itself ships (source, names, kwargs) is not user data
+        gw.reconfigure(py2str_as_py3str=case["gw_strcfg"][0], py3str_as_py2str=case["gw_strcfg"][1])
     d = os.path.join("/dev/shm", case["scratch"] + "-" + os.environ.get("VERIF_RUN_TAG", "00000000"))
     os.makedirs(d, exist_ok=True)
     created = []
@@ -400,6 +404,9 @@ def oracle(case, res, hist):
             V.append(v("wrong-namespace", k, f"__name__={start[0][2]!r} channel-bound={start[0][3]!r}"))
         # items sent by the body arrive exactly, in order (up to the raise)
         exp_sends = [(tok, L.expected_canon(tok, fill)) for tok, fill in it["sends"]]
+        if case.get("gw_strcfg"):
+            # (coerced strings: only order and count of the items are compared)
+            got = [(t, dict(exp_sends).get(t)) for t, c in got]
         if got != [(t, c) for t, c in exp_sends][:len(got)] or (end and end[0] in ("eof", "remote") and len(got) != len(exp_sends)):
             V.append(v("body-items-differ", k, f"{label}: got {got[:4]} expected {exp_sends[:4]}"))
         # kwargs type-exact
